@@ -126,4 +126,40 @@ def exec (s : Sys) (op : Nat) (prio : Int) (req : List Nat) (adv : Adv) : ExecRe
     else failWith s2 a1.1 (log0 ++ [.cp 1 false]) none
   else failWith q.1 q.2.1 log0 none
 
+/-! ### one layer up: `IntegratedCell.execute` (operon_ai/cell.py)
+
+The cell calls `coordination.execute_operation`, returns a failure blocked by "coordination" when the coordinated
+operation did not succeed, and otherwise tags the output (quality pool), records an observation and runs the
+proteasome; any exception on that path is caught and turned into a failure without a blocker.  The quality /
+surveillance machinery is environment here: it returns with a tag, returns without one (pool exhausted), or
+raises.  The agent-operation tracking entry is always removed (`finally`). -/
+
+inductive PostOut where
+  | ok | noTag | raise
+  deriving DecidableEq, Repr
+
+structure CellRes where
+  sys : Sys
+  success : Bool
+  blockedByCoordination : Bool
+  hasOutput : Bool
+  coordAttached : Bool        -- `coordination_result` is set on the returned object
+  tracked : Bool              -- agent still listed in `agent_operations` afterwards
+  coord : ExecRes
+
+/-- `IntegratedCell.execute` -/
+def cellExecute (s : Sys) (op : Nat) (prio : Int) (req : List Nat) (adv : Adv) (post : PostOut) : CellRes :=
+  let r := exec s op prio req adv
+  if r.success then
+    match post with
+    | .raise =>
+      { sys := r.sys, success := false, blockedByCoordination := false, hasOutput := false, coordAttached := false
+        tracked := false, coord := r }
+    | _ =>
+      { sys := r.sys, success := true, blockedByCoordination := false, hasOutput := true, coordAttached := true
+        tracked := false, coord := r }
+  else
+    { sys := r.sys, success := false, blockedByCoordination := true, hasOutput := false, coordAttached := true
+      tracked := false, coord := r }
+
 end Operon.Coord
